@@ -609,23 +609,33 @@ theorem refs_walkMethod (e : Env) (ns : List String) (m : Method) :
   unfold walkMethod
   split <;> simp
 
+/-- the method / property of an interface member (the two `filterMap`s of `typeDecl`) -/
+def Member.method? : Member → Option Method
+  | .m x => some x
+  | .p _ => none
+def Member.prop? : Member → Option Prop'
+  | .p x => some x
+  | .m _ => none
+
 /-- the references of one interface member -/
 def memberRefs (e : Env) (ns : List String) : Member → List RefSite
   | .m x => (walkMethod e ns x).refs
   | .p x => (walkT e ns x.ty).refs
 
 theorem refs_members_perm (e : Env) (ns : List String) (ms : List Member) :
-    ((walkMethods e ns (ms.filterMap (fun | .m x => some x | _ => none))).refs
-      ++ (walkProps e ns (ms.filterMap (fun | .p x => some x | _ => none))).refs).Perm (ms.flatMap (memberRefs e ns)) := by
+    ((walkMethods e ns (ms.filterMap Member.method?)).refs
+      ++ (walkProps e ns (ms.filterMap Member.prop?)).refs).Perm (ms.flatMap (memberRefs e ns)) := by
   induction ms with
   | nil => simp [walkMethods, walkProps]
   | cons m ms ih =>
     cases m with
     | m x =>
-      simp only [List.filterMap_cons, walkMethods, Collected.refs_append, List.flatMap_cons, memberRefs, List.append_assoc]
+      simp only [List.filterMap_cons, Member.method?, Member.prop?, walkMethods, Collected.refs_append, List.flatMap_cons,
+        memberRefs, List.append_assoc]
       exact List.Perm.append_left _ ih
     | p x =>
-      simp only [List.filterMap_cons, walkProps, Collected.refs_append, List.flatMap_cons, memberRefs]
+      simp only [List.filterMap_cons, Member.method?, Member.prop?, walkProps, Collected.refs_append, List.flatMap_cons,
+        memberRefs]
       rw [← List.append_assoc]
       refine List.Perm.trans (List.Perm.append_right _ List.perm_append_comm) ?_
       rw [List.append_assoc]
@@ -843,8 +853,8 @@ theorem typeDecl_interface_inv (fuel : Nat) (c' : List String) (ts0 ts : List To
       eq.tk = .kw "=" ∧ mk.map (·.tk) = printMod mn "main" ∧ k.tk = .kw "interface" ∧
       tg.map (·.tk) = printTargets fl ∧ lb.tk = .kw "{" ∧ rb.tk = .kw "}" ∧
       many fuel (peekKw "}") (member fuel) fuel body = some (ms, rb :: rest) ∧
-      methods = ms.filterMap (fun | .m x => some x | _ => none) ∧
-      props = ms.filterMap (fun | .p x => some x | _ => none) := by
+      methods = ms.filterMap Member.method? ∧
+      props = ms.filterMap Member.prop? := by
   unfold typeDecl at h
   simp only [Option.bind_eq_bind] at h
   cases hi : ident ts with
@@ -904,7 +914,8 @@ theorem typeDecl_interface_inv (fuel : Nat) (c' : List String) (ts0 ts : List To
                   Decl.interface.injEq] at h
                 obtain ⟨⟨rfl, rfl, rfl, rfl, -, rfl, rfl, -⟩, rfl⟩ := h
                 exact ⟨rfl, nt, eq, mk, k, tg, lb, ts6, rb, ms, by rw [hmk, htg1], hn, heq, hmkk, hkk, htg2, hlb, hrb,
-                  hm, rfl, rfl⟩
+                  hm, congrArg (fun f => List.filterMap f ms) (funext fun x => by cases x <;> rfl),
+                  congrArg (fun f => List.filterMap f ms) (funext fun x => by cases x <;> rfl)⟩
       · exfalso
         split at h
         · simp [Option.bind_eq_some_iff] at h
@@ -1071,10 +1082,10 @@ theorem typeDecl_cov (e : Env) (ns : List String) (fuel : Nat) (c : List String)
       typeDecl_interface_inv fuel c ts0 ts n c' mn fl flp methods props p rest h
     obtain ⟨pre, rfl, hc⟩ := many_cov _ fuel _ (member fuel) (member_cov e ns fuel) fuel _ _ _ hm
     refine ⟨nt :: eq :: (mk ++ k :: (tg ++ lb :: (pre ++ [rb]))), by simp, ?_⟩
-    have hr : (walkDecl e ns (.interface n c' mn fl flp (ms.filterMap (fun | .m x => some x | _ => none))
-        (ms.filterMap (fun | .p x => some x | _ => none)) p)).refs
-        = (walkMethods e ns (ms.filterMap (fun | .m x => some x | _ => none))).refs
-          ++ (walkProps e ns (ms.filterMap (fun | .p x => some x | _ => none))).refs := by
+    have hr : (walkDecl e ns (.interface n c' mn fl flp (ms.filterMap Member.method?)
+        (ms.filterMap Member.prop?) p)).refs
+        = (walkMethods e ns (ms.filterMap Member.method?)).refs
+          ++ (walkProps e ns (ms.filterMap Member.prop?)).refs := by
       simp [walkDecl, reg1]
     rw [hr]
     have hc' := hc.perm (refs_members_perm e ns ms)
